@@ -130,7 +130,7 @@ def run(tier, seed, replay=None):
         # ---- (2) two scans of the same tree under different traversal orders
         from codelimit.common import Scanner
         real_walk = os.walk
-        for t in range(6 if tier == "quick" else 120):
+        for t in range(10 if tier == "quick" else 120):
             root = os.path.join(tmp, f"tree{t}")
             os.makedirs(root)
             for i in range(rng.randint(2, 7)):
@@ -141,7 +141,10 @@ def run(tier, seed, replay=None):
                 with open(os.path.join(d, f"f{i}.{LC.EXT[lang]}"), "w") as f:
                     f.write(p["text"])
             # names without extension: some are recognised by their full name (BUILD, SConstruct -> Python), some are not
-            for nm in rng.sample(["BUILD", "deploy", "SConstruct", "run", "WORKSPACE", "Makefile", "x"], rng.randint(1, 4)):
+            # (at least one of each kind in every tree: whichever the walk meets first must not decide for the others)
+            by_name = rng.sample(["BUILD", "SConstruct", "WORKSPACE"], rng.randint(1, 2))
+            unknown = rng.sample(["deploy", "run", "Makefile", "x", "LICENSE"], rng.randint(1, 3))
+            for nm in by_name + unknown:
                 d = os.path.join(root, *rng.sample(["a", "b", "c"], rng.randint(0, 1)))
                 os.makedirs(d, exist_ok=True)
                 with open(os.path.join(d, nm), "w") as f:
@@ -156,6 +159,17 @@ def run(tier, seed, replay=None):
             os.makedirs(du, exist_ok=True)
             with open(os.path.join(du, "uni.py"), "w", encoding="utf8") as f:
                 f.write("def caf\u00e9(\u00fc):\n    s = '\u00e9\u00e9'\n    return s + '\u65e5\u672c'\n")
+            # order-sensitive exclusions in the configuration file: everything beneath one directory except one file
+            # (gitignore semantics: the last matching pattern decides, so the ORDER of the two patterns matters)
+            excl = []
+            subdirs = [d0 for d0 in ("a", "b", "c") if os.path.isdir(os.path.join(root, d0))
+                       and any(os.path.isfile(os.path.join(root, d0, x)) for x in os.listdir(os.path.join(root, d0)))]
+            if subdirs:
+                d0 = rng.choice(subdirs)
+                keep = sorted(x for x in os.listdir(os.path.join(root, d0)) if os.path.isfile(os.path.join(root, d0, x)))[0]
+                excl = [f"{d0}/*", f"!{d0}/{keep}", "zz_unused", "!zz_other", "yy/*", "!yy/k.py"]
+                with open(os.path.join(root, ".codelimit.yml"), "w") as f:
+                    f.write("exclude:\n" + "".join(f"  - \"{x}\"\n" for x in excl))
             reports = []
             for perm in range(3):
                 def shuffled(top, _p=perm):
@@ -172,17 +186,35 @@ def run(tier, seed, replay=None):
                 Scanner.os = OsProxy()
                 try:
                     shutil.rmtree(os.path.join(root, ".codelimit_cache"), ignore_errors=True)
-                    rep, _ = F.run_scan(root, [])
+                    rep, _ = F.run_scan(root, excl)
                 finally:
                     Scanner.os = orig_os
                 reports.append(rep)
             # ... and by a fresh process that has analysed nothing before (state leaking between scans)
             shutil.rmtree(os.path.join(root, ".codelimit_cache"), ignore_errors=True)
             env = dict(os.environ, PYTHONPATH=REPO, LC_ALL="C", PYTHONDONTWRITEBYTECODE="1", COLUMNS="200")
-            sp = subprocess.run(["/venv/bin/python", "-m", "codelimit", "scan", root], capture_output=True, text=True, env=env, timeout=300)
+            seeds_here = [None, 0, 1, 2, 3, 4, 5, 6, 7] if excl else [None]
+            fresh_proc = None
+            for hs in seeds_here:
+                shutil.rmtree(os.path.join(root, ".codelimit_cache"), ignore_errors=True)
+                env2 = dict(env) if hs is None else dict(env, PYTHONHASHSEED=str(hs))
+                sp = subprocess.run(["/venv/bin/python", "-m", "codelimit", "scan", root], capture_output=True, text=True, env=env2, timeout=300)
+                try:
+                    with open(F.cache_path(root)) as f:
+                        this = F.canonical(json.load(f))
+                except (OSError, ValueError):
+                    this = None
+                if fresh_proc is None:
+                    fresh_proc = this
+                elif this != fresh_proc:
+                    chk.violation({"tree": t, "excludes": excl, "hashseed": hs},
+                                  f"`codelimit scan` with the exclusions {excl[:2]} in .codelimit.yml gives another report under "
+                                  f"PYTHONHASHSEED={hs}: files {sorted(set((this or {'codebase': {'files': {}}})['codebase']['files']) ^ set((fresh_proc or {'codebase': {'files': {}}})['codebase']['files']))}")
+                    break
+                chk.evaluations += 1
             try:
-                with open(F.cache_path(root)) as f:
-                    fresh_proc = F.canonical(json.load(f))
+                if fresh_proc is None:
+                    raise OSError("no report")
                 if fresh_proc != reports[0]:
                     chk.violation({"tree": t, "files": sorted(os.listdir(root))},
                                   "a scan in a fresh process differs from the scan made after other scans in this process: "
